@@ -49,6 +49,7 @@ impl Prop for P {
             rule: "inputs valid (4 sources) and invalid (directive streams, mutants, random bytes) x buffer mode (flat; rings of 2^0..2^16 with random or zero initial contents); reference run = maximal calls with everything offered; compared runs = EVERY single cut point and one-byte feeding (inputs <= 700 bytes), each also under small per-call output budgets, plus random partitions incl. empty chunks with random budgets, plus inflate() under arbitrary in/out slicing. Oracle: identical (output bytes, final status, total consumed) within a mode; for valid inputs also identical across modes and equal to the reference plaintext. Non-trivial = a run in which input ran out inside a code / extra-bits field / stored header or payload / trailer AND a call stopped for lack of output in the middle of a match; distinct by (input, schedule) fingerprint",
             assumptions: &["every schedule ends with a call that does not announce more input, so verdicts are comparable"],
             dbg: true,
+            simd: false,
             exhaustive: None,
         }
     }
